@@ -336,7 +336,7 @@ func (g *Gen) rule(kind string, id uint32, update bool) RuleIntent {
 					sdf.TTC = g.chance(0.15)
 					sdf.SPI = g.chance(0.15)
 					sdf.FL = g.chance(0.15)
-					if g.chance(0.4) {
+					if g.chance(0.4) || (sdf.FD == nil && !sdf.TTC && !sdf.SPI && !sdf.FL) {
 						sdf.BID = u32p(uint32(g.bv(32)))
 					}
 					r.SDFs = append(r.SDFs, sdf)
@@ -368,6 +368,10 @@ func (g *Gen) rule(kind string, id uint32, update bool) RuleIntent {
 		if !update || g.chance(0.5) {
 			r.QERIDs = g.someIDs("qer", 2)
 			r.URRIDs = g.someIDs("urr", 3)
+			if update && len(r.URRIDs) == 0 {
+				// an Update PDR without URR IDs is ambiguous (unchanged vs emptied): always name one
+				r.URRIDs = []uint32{uint32(1 + g.intn(idRange["urr"]))}
+			}
 		}
 	case "far":
 		if opt() {
@@ -488,7 +492,7 @@ func (g *Gen) rule(kind string, id uint32, update bool) RuleIntent {
 		}
 	}
 	// child order
-	n := len(r.children(update))
+	n := len(r.kids(update))
 	r.Order = g.perm(n)
 	return r
 }
